@@ -276,6 +276,8 @@ def assembly_facts(result, sources):
                "bank": 0 if s.get("bank") is None else s["bank"] + 1,
                "pos": ev["pos"] if (ev is not None and ev["kind"] == "label") else -1}
         if rec["int"]:
+            if str(val["v"]).startswith("huge:"):
+                raise rtrace.Unjudged("symbol value beyond 2^16 bits")
             n = int(val["v"])
             rec["neg"] = n < 0
             rec["hex"] = [int(c, 16) for c in "%x" % abs(n)]
